@@ -164,7 +164,7 @@ class ProtoImporter:
                 # Import a VLSIR primitive to an ideal element, and convert its parameters
                 target = import_vlsir_primitive(ref.external)
                 remapped_params = import_primitive_params(target, params)
-                params = target.Params(**remapped_params)
+                params = target.Params(**unset_params(target, remapped_params))
 
             elif ref.external.domain in (
                 "hdl21.primitives",
@@ -172,7 +172,7 @@ class ProtoImporter:
             ):
                 # Retrieve the Primitive from `hdl21.primitives`, and convert its parameters
                 target = import_hdl21_primitive(ref.external)
-                params = target.Params(**params)
+                params = target.Params(**unset_params(target, params))
 
             else:  # Externally-defined `ExternalModule`
                 # These must be declared in our `Package` being imported. Look up its header-info from `ext_modules`.
@@ -394,14 +394,22 @@ def import_primitive_params(
     Returns the result as a dictionary of {name: value}s."""
 
     if target is Vpulse:
+        # Note the exporter leaves `None`-valued parameters out: any of these may be absent.
         return dict(
-            v1=params["v1"],
-            v2=params["v2"],
-            delay=params["td"],
-            rise=params["tr"],
-            fall=params["tf"],
-            width=params["tpw"],
-            period=params["tper"],
+            v1=params.get("v1", None),
+            v2=params.get("v2", None),
+            delay=params.get("td", None),
+            rise=params.get("tr", None),
+            fall=params.get("tf", None),
+            width=params.get("tpw", None),
+            period=params.get("tper", None),
         )
 
     return params
+
+
+def unset_params(target: Primitive, params: Dict[str, Any]) -> Dict[str, Any]:
+    """Complete the imported `params` of an instance of `target` with the parameters its package does not list.
+    The exporter leaves out exactly the `None`-valued parameters, so `None` is what these were -
+    and not the default value of the parameter, which a re-export would then write."""
+    return {**{name: None for name in target.Params.__params__}, **params}
